@@ -41,6 +41,7 @@ func runC02(ctx *Ctx) {
 	for drv := 0; drv < 2; drv++ {
 		if ctx.Want(900200 + drv) {
 			firstCreditRace(ctx, 900200+drv, drv, "c02")
+			c02RefusedKeepalive(ctx, 900400+drv, drv)
 		}
 	}
 	for c := 0; c < ctx.N(6, 60); c++ {
@@ -199,6 +200,10 @@ func runC03(ctx *Ctx) {
 		}
 		if i%20 == 5 || i%20 == 14 {
 			c03SharedConnection(ctx, i, drv, rng)
+			return
+		}
+		if i == 16 {
+			c03BinaryFlags(ctx, i)
 			return
 		}
 		// the per-request cap on returned hosts is about peer requests only: a cut-off must reach
